@@ -101,8 +101,15 @@ def main():
     for it in items:
         t = it['text']
         if it['key'].startswith(('fn ', 'impl ')):
-            t2, tags = process_item(t, rules)
-            if tags or '//@' in t2:
+            try:
+                t2, tags = process_item(t, rules)
+                from vlib import tokenize
+                a = [x.t for x in tokenize(t)[0] if x.t != ',']; b = [x.t for x in tokenize(t2)[0] if x.t != ',']
+                if a != b:
+                    print('dev_mark: skipped (would change tokens):', it['key']); t2, tags = re.sub(r'[ \t]*//@[^\n]*\n', '', t), set()
+            except Exception as e:
+                print('dev_mark: skipped (%s):' % e, it['key']); t2, tags = t, set()
+            if True:
                 # item default marker in front of the item
                 t2 = re.sub(r'^(\s*)', lambda mm: mm.group(1), t2, count=1)
                 lead = re.match(r'\s*', t2).group(0)
